@@ -171,7 +171,15 @@ def gen_dataset(rng, fmt):
     if layout == "station":
         ds["lon"] = ("site", np.array(lon, dtype=float))
         ds["lat"] = ("site", np.array(lat, dtype=float))
-    desc = dict(fmt=fmt, nf=nf, nd=nd, T=T, fkind=fkind, order=order, layout=layout, dtype=dtype, exact=exact,
+    stored = "standard"
+    if rng.random() < 0.25:
+        # the same labelled data held with its dimensions in another order (dims are named; writers must not rely on position)
+        perm = list(ds.efth.dims)
+        while perm == list(ds.efth.dims):
+            rng.shuffle(perm)
+        ds["efth"] = ds.efth.transpose(*perm)
+        stored = "/".join(perm)
+    desc = dict(fmt=fmt, nf=nf, nd=nd, T=T, fkind=fkind, order=order, layout=layout, dtype=dtype, exact=exact, stored=stored,
                 shape=list(shape), kinds=sorted(set(knds)), lon=[float(v) for v in lon], lat=[float(v) for v in lat])
     return ds, desc
 
@@ -490,6 +498,8 @@ def compare_labelled(op, ds, r, fails, case, tol_fn, dir_mod=False, time_tol=1e-
     if dd.max() > 1e-9:
         fails.append((op, f"directions {d0.tolist()} read back {d1.tolist()}", case, None))
         return False
+    std = [d for d in da.dims if d not in ("freq", "dir")] + ["freq", "dir"]   # compare in the standard order whatever the storage
+    da = da.transpose(*std)
     A = np.asarray(da.values, dtype=float)
     B = np.asarray(r.efth.transpose(*da.dims).values, dtype=float)
     lead = A.shape[:-2]
